@@ -570,4 +570,317 @@ theorem rt_headers (a : Bool) (sid : Nat) (es eh : Bool) (pl : Nat) (pr : Priori
     congr 1
     by_cases c1 : pl = 0 <;> cases c2 : prioZero pr <;> simp [c1] <;> omega
 
+/-! ### every frame type -/
+
+theorem all_roundtrip (a : Bool) (f : Frame) (hwf : WF f) : roundTrip a f = some (.ok f) := by
+  cases f with
+  | data sid es d pad =>
+    obtain ⟨h0, hs, hp, hd⟩ := hwf
+    cases pad with
+    | none => exact rt_data_plain a sid es d h0 hs (by omega)
+    | some p' =>
+      obtain ⟨e, hl⟩ := hp p' rfl
+      rw [e]
+      exact rt_data_padded a sid es d p'.length h0 hs hl hd
+  | headers sid es eh pl pr frag =>
+    obtain ⟨h0, hs, hpl, hd, hw, hf⟩ := hwf
+    exact rt_headers a sid es eh pl pr frag h0 hs hpl hd hw hf
+  | priority sid p => obtain ⟨h0, hs, hd, hw⟩ := hwf; exact rt_priority a sid p h0 hs hd hw
+  | rst sid code => obtain ⟨h0, hs, hc⟩ := hwf; exact rt_rst a sid code h0 hs hc
+  | settings ss => obtain ⟨hr, hl⟩ := hwf; exact rt_settings a ss hr hl
+  | settingsAck => exact rt_settingsAck a
+  | pushPromise sid pr eh pl frag =>
+    obtain ⟨h0, hs, hp0, hp, hpl, hf⟩ := hwf
+    exact rt_pushPromise a sid pr eh pl frag h0 hs hp0 hp hpl hf
+  | ping ack d => exact rt_ping a ack d hwf
+  | goAway last code dbg => obtain ⟨hl, hc, hd⟩ := hwf; exact rt_goAway a last code dbg hl hc hd
+  | windowUpdate sid incr => obtain ⟨hs, h0, hi⟩ := hwf; exact rt_windowUpdate a sid incr hs h0 hi
+  | continuation sid eh frag => obtain ⟨h0, hs, hf⟩ := hwf; exact rt_continuation a sid eh frag h0 hs hf
+  | raw t fl sid pl => obtain ⟨ht, _, _, hs, hp⟩ := hwf; exact rt_raw a t fl sid pl ht hs hp
+
+/-! ### MOSN's own writers write what `Framer.Write*` writes -/
+
+theorem finishWrite_mono (r r' : Bool) (t fl sid : Nat) (p : Bytes) (w : FrameHeader × Bytes) (hr : r' = true → r = true)
+    (h : finishWrite r t fl sid p = some w) : finishWrite r' t fl sid p = some w := by
+  unfold finishWrite at h ⊢
+  cases hr1 : r with
+  | true => rw [hr1] at h; simp at h
+  | false =>
+    have : r' = false := by cases hr' : r' with
+      | false => rfl
+      | true => have := hr hr'; rw [hr1] at this; cases this
+    rw [this]; rw [hr1] at h; exact h
+
+/-- whatever `MFramer.write*` / `MServerConn` / `MClientConn` write in line for a frame is, byte for byte, what
+`Framer.Write*` writes for it (the MOSN writers refuse at least what the reference writer refuses with AllowIllegalWrites) -/
+theorem mwrite_eq_write (server : Bool) (f : Frame) (w : FrameHeader × Bytes) (h : f.mwrite server = some w) : f.write true = some w := by
+  cases f with
+  | data sid es d pad =>
+    cases pad with
+    | some p' => simp [Frame.mwrite] at h
+    | none =>
+      simp only [Frame.mwrite] at h
+      simp only [Frame.write, Option.isNone_none, Option.getD_none]
+      refine finishWrite_mono (mDataRefuse sid es d) _ _ _ _ _ w (by simp [wDataRefuse]) ?_
+      simpa [mDataType, mDataFlags, mDataSid, mDataPayload, wDataType, wDataFlags, wDataSid, wDataPayload] using h
+  | headers sid es eh pl pr frag =>
+    simp only [Frame.mwrite] at h
+    simp only [Frame.write]
+    refine finishWrite_mono (mHeadersRefuse sid es eh pl (prioZero pr) pr.streamDep pr.exclusive pr.weight frag) _ _ _ _ _ w
+      (by simp [wHeadersRefuse]) ?_
+    simpa [mHeadersType, mHeadersFlags, mHeadersSid, mHeadersPayload, wHeadersType, wHeadersFlags, wHeadersSid, wHeadersPayload,
+      mu32be_eq] using h
+  | priority sid p => simp [Frame.mwrite] at h
+  | rst sid code =>
+    simp only [Frame.mwrite] at h
+    simp only [Frame.write]
+    refine finishWrite_mono false _ _ _ _ _ w (by simp [wRstRefuse]) ?_
+    cases server <;> simpa [mSrvRstRefuse, mCliRstRefuse, mSrvRstType, mSrvRstFlags, mSrvRstSid, mSrvRstPayload, mCliRstType, mCliRstFlags, mCliRstSid, mCliRstPayload,
+      wRstType, wRstFlags, wRstSid, wRstPayload, mu32be_eq] using h
+  | settings ss =>
+    simp only [Frame.mwrite] at h
+    simp only [Frame.write]
+    simpa [mSettingsRefuse, mSettingsType, mSettingsFlags, mSettingsSid, mSettingsPayload, wSettingsRefuse, wSettingsType,
+      wSettingsFlags, wSettingsSid, wSettingsPayload, mu32be_eq, mu16be_eq] using h
+  | settingsAck =>
+    simp only [Frame.mwrite] at h
+    simp only [Frame.write]
+    cases server <;> simpa [mCliSettingsAckRefuse, mCliSettingsAckType, mCliSettingsAckFlags, mCliSettingsAckSid,
+      mCliSettingsAckPayload, mSrvSettingsAckRefuse, mSrvSettingsAckType, mSrvSettingsAckFlags, mSrvSettingsAckSid,
+      mSrvSettingsAckPayload, wSettingsAckRefuse, wSettingsAckType, wSettingsAckFlags, wSettingsAckSid, wSettingsAckPayload] using h
+  | pushPromise sid pr eh pl frag => simp [Frame.mwrite] at h
+  | ping ack d =>
+    simp only [Frame.mwrite] at h
+    simp only [Frame.write]
+    cases server
+    · simpa [mCliPingRefuse, mCliPingType, mCliPingFlags, mCliPingSid, mCliPingPayload, wPingRefuse, wPingType, wPingFlags,
+        wPingSid, wPingPayload] using h
+    · cases ack
+      · simp at h
+      · simpa [mSrvPingAckRefuse, mSrvPingAckType, mSrvPingAckFlags, mSrvPingAckSid, mSrvPingAckPayload, wPingRefuse, wPingType,
+          wPingFlags, wPingSid, wPingPayload] using h
+  | goAway last code dbg =>
+    simp only [Frame.mwrite] at h
+    simp only [Frame.write]
+    cases server
+    · simp at h
+    · simpa [mSrvGoAwayRefuse, mSrvGoAwayType, mSrvGoAwayFlags, mSrvGoAwaySid, mSrvGoAwayPayload, wGoAwayRefuse, wGoAwayType,
+        wGoAwayFlags, wGoAwaySid, wGoAwayPayload, mu32be_eq] using h
+  | windowUpdate sid incr =>
+    simp only [Frame.mwrite] at h
+    simp only [Frame.write]
+    refine finishWrite_mono (mWindowUpdateRefuse sid incr) _ _ _ _ _ w (by simp [wWindowUpdateRefuse]) ?_
+    simpa [mWindowUpdateType, mWindowUpdateFlags, mWindowUpdateSid, mWindowUpdatePayload, wWindowUpdateType, wWindowUpdateFlags,
+      wWindowUpdateSid, wWindowUpdatePayload, mu32be_eq] using h
+  | continuation sid eh frag =>
+    simp only [Frame.mwrite] at h
+    simp only [Frame.write]
+    refine finishWrite_mono (mContinuationRefuse sid eh frag) _ _ _ _ _ w (by simp [wContinuationRefuse]) ?_
+    simpa [mContinuationType, mContinuationFlags, mContinuationSid, mContinuationPayload, wContinuationType, wContinuationFlags,
+      wContinuationSid, wContinuationPayload] using h
+  | raw t fl sid pl => simp [Frame.mwrite] at h
+
+/-! ### reserved bits -/
+
+theorem pWuInc_u32be (x : Nat) (hx : x < 2 ^ 32) : pWuInc (u32be x) = x % 2 ^ 31 := by
+  have e : be32 (List.take 4 (u32be x)) = x := by simpa using be32_u32be x hx []
+  unfold pWuInc; rw [e, mask31]
+
+theorem wu_reserved (h : FrameHeader) (v : Nat) (hv : v < 2 ^ 32) :
+    parseWindowUpdate h (u32be v) = parseWindowUpdate h (u32be (v % 2 ^ 31)) := by
+  have hm : v % 2 ^ 31 < 2 ^ 32 := by omega
+  unfold parseWindowUpdate
+  rw [pWuInc_u32be v hv, pWuInc_u32be _ hm, Nat.mod_mod]
+  rfl
+
+theorem goAway_reserved (h : FrameHeader) (l c : Nat) (dbg : Bytes) (hl : l < 2 ^ 32) (hc : c < 2 ^ 32) :
+    parseGoAway h (u32be l ++ u32be c ++ dbg) = parseGoAway h (u32be (l % 2 ^ 31) ++ u32be c ++ dbg) := by
+  by_cases hs : h.streamID = 0
+  · rw [parseGoAway_ok h l c dbg hs hl hc, parseGoAway_ok h _ c dbg hs (by omega) hc, Nat.mod_mod]
+  · have g : ∀ p, pGoAwaySid h.flags h.streamID h.length p = true := by intro p; simp [pGoAwaySid, hs]
+    unfold parseGoAway
+    simp only [g, if_true]
+
+theorem push_reserved (h : FrameHeader) (v : Nat) (frag : Bytes) (hv : v < 2 ^ 32) (hf : flagsHas h.flags 8 = false) :
+    parsePushPromise h (u32be v ++ frag) = parsePushPromise h (u32be (v % 2 ^ 31) ++ frag) := by
+  by_cases hs : h.streamID = 0
+  · have g : ∀ p, pPushSid h.flags h.streamID h.length p = true := by intro p; simp [pPushSid, hs]
+    unfold parsePushPromise
+    simp only [g, if_true]
+  · rw [parsePush_plain h v frag hs hf hv, parsePush_plain h _ frag hs hf (by omega), Nat.mod_mod]
+
+theorem hdr_reserved (h : FrameHeader) : readHdr { h with streamID := h.streamID % 2 ^ 31 + 2 ^ 31 } = readHdr h := by
+  have e : (h.streamID % 2 ^ 31 + 2 ^ 31) % 2 ^ 31 = h.streamID % 2 ^ 31 := by omega
+  unfold readHdr
+  simp only [e]
+
+/-! ### every payload: one of ok / connection error / stream error, as RFC 7540 §6 prescribes -/
+
+/-- the parser's answer agrees with the table: accepted iff no rule is violated; an error is one the table lists -/
+def Agrees (r : Except PErr Body) (v : List Class) : Prop :=
+  match r with
+  | .ok _ => v = []
+  | .error e => classOf (.error e) ∈ v
+
+theorem flagsHas_flagSet : ∀ f, f < 256 → (flagsHas f 1 = flagSet f 1 ∧ flagsHas f 8 = flagSet f 8 ∧ flagsHas f 32 = flagSet f 32) := by
+  decide +kernel
+
+theorem byteAt_take (p : Bytes) (n i : Nat) (h : i < n) : byteAt (p.take n) i = byteAt p i := by
+  unfold byteAt
+  rw [List.getD_eq_getElem?_getD, List.getD_eq_getElem?_getD, List.getElem?_take_of_lt h]
+
+theorem byteAt_drop (p : Bytes) (n i : Nat) : byteAt (p.drop n) i = byteAt p (n + i) := by
+  unfold byteAt
+  rw [List.getD_eq_getElem?_getD, List.getD_eq_getElem?_getD, List.getElem?_drop]
+
+theorem be32_take (p : Bytes) (k : Nat) : be32 (List.take 4 (List.drop k p)) = u32At p k := by
+  unfold be32 u32At
+  rw [byteAt_take _ _ _ (by decide), byteAt_take _ _ _ (by decide), byteAt_take _ _ _ (by decide), byteAt_take _ _ _ (by decide),
+    byteAt_drop, byteAt_drop, byteAt_drop, byteAt_drop]
+  simp [byteAt]
+
+theorem total_ping (h : FrameHeader) (p : Bytes) : Agrees (parsePing h p) (rfcViolations 6 h.flags h.streamID p) := by
+  unfold parsePing rfcViolations pPingLen pPingSid
+  by_cases c1 : p.length = 8 <;> by_cases c2 : h.streamID = 0 <;>
+    simp [c1, c2, Agrees, classOf, pPingLenCode, pPingSidCode, FRAME_SIZE_ERROR, PROTOCOL_ERROR]
+
+theorem total_rst (h : FrameHeader) (p : Bytes) : Agrees (parseRst h p) (rfcViolations 3 h.flags h.streamID p) := by
+  unfold parseRst rfcViolations pRstLen pRstSid
+  by_cases c1 : p.length = 4 <;> by_cases c2 : h.streamID = 0 <;>
+    simp [c1, c2, Agrees, classOf, pRstLenCode, pRstSidCode, FRAME_SIZE_ERROR, PROTOCOL_ERROR]
+
+theorem total_priority (h : FrameHeader) (p : Bytes) : Agrees (parsePriority h p) (rfcViolations 2 h.flags h.streamID p) := by
+  unfold parsePriority rfcViolations pPrioLen pPrioSid
+  by_cases c1 : p.length = 5 <;> by_cases c2 : h.streamID = 0 <;>
+    simp [c1, c2, Agrees, classOf, pPrioLenCode, pPrioSidCode, FRAME_SIZE_ERROR, PROTOCOL_ERROR]
+
+theorem total_goAway (h : FrameHeader) (p : Bytes) : Agrees (parseGoAway h p) (rfcViolations 7 h.flags h.streamID p) := by
+  unfold parseGoAway rfcViolations pGoAwayLen pGoAwaySid
+  by_cases c1 : p.length < 8 <;> by_cases c2 : h.streamID = 0 <;>
+    simp [c1, c2, Agrees, classOf, pGoAwayLenCode, pGoAwaySidCode, FRAME_SIZE_ERROR, PROTOCOL_ERROR]
+
+theorem total_continuation (h : FrameHeader) (p : Bytes) : Agrees (parseContinuation h p) (rfcViolations 9 h.flags h.streamID p) := by
+  unfold parseContinuation rfcViolations pContSid
+  by_cases c2 : h.streamID = 0 <;> simp [c2, Agrees, classOf, pContSidCode, PROTOCOL_ERROR]
+
+theorem total_windowUpdate (h : FrameHeader) (p : Bytes) : Agrees (parseWindowUpdate h p) (rfcViolations 8 h.flags h.streamID p) := by
+  have e : pWuInc p = u32At p 0 % 2 ^ 31 := by
+    unfold pWuInc
+    rw [mask31, ← be32_take p 0]; rfl
+  unfold parseWindowUpdate rfcViolations pWuLen pWuZero pWuZeroConn
+  rw [e]
+  by_cases c1 : p.length = 4 <;> by_cases c2 : h.streamID = 0 <;> by_cases c3 : u32At p 0 % 2 ^ 31 = 0 <;>
+    simp [c1, c2, c3, Agrees, classOf, pWuLenCode, pWuZeroConnCode, pWuZeroStreamCode, FRAME_SIZE_ERROR, PROTOCOL_ERROR]
+
+theorem be16_take (p : Bytes) (k : Nat) : be16 (List.take 2 (List.drop k p)) = (p.getD k 0).toNat * 256 + (p.getD (k + 1) 0).toNat := by
+  unfold be16
+  rw [byteAt_take _ _ _ (by decide), byteAt_take _ _ _ (by decide), byteAt_drop, byteAt_drop]
+  simp [byteAt]
+
+theorem settingsOf_rfc (p : Bytes) : settingsOf p = rfcSettings p := by
+  unfold settingsOf rfcSettings numSettings
+  apply List.map_congr_left
+  intro i _
+  unfold settingAt setIdLo setIdHi setValLo setValHi
+  have e1 : i * 6 + 2 - i * 6 = 2 := by omega
+  have e2 : i * 6 + 6 - (i * 6 + 2) = 4 := by omega
+  rw [e1, e2, be16_take, be32_take, Nat.mul_comm i 6]
+
+theorem total_settings (h : FrameHeader) (p : Bytes) (hl : h.length = p.length) (hf : h.flags < 256) :
+    Agrees (parseSettings h p) (rfcViolations 4 h.flags h.streamID p) := by
+  have hfs := (flagsHas_flagSet h.flags hf).1
+  unfold parseSettings rfcViolations pSettingsAckLen pSettingsSid pSettingsMod settingValue pSettingsWinBad pSettingsWinId
+  rw [settingsOf_rfc, hfs, hl]
+  by_cases c1 : (flagSet h.flags 1 = true ∧ p.length ≠ 0)
+  · have : (flagSet h.flags 1 && decide (p.length > 0)) = true := by
+      simp only [Bool.and_eq_true, decide_eq_true_eq]; exact ⟨c1.1, by omega⟩
+    have hpos : 0 < p.length := by omega
+    simp [this, c1, hpos, Agrees, classOf, pSettingsAckLenCode, FRAME_SIZE_ERROR]
+  · have h1 : (flagSet h.flags 1 && decide (p.length > 0)) = false := by
+      cases hfl : flagSet h.flags 1
+      · rfl
+      · have : p.length = 0 := by
+          by_cases hz : p.length = 0
+          · exact hz
+          · exact absurd ⟨hfl, hz⟩ c1
+        simp [this]
+    simp only [h1, Bool.false_eq_true, if_false, c1, List.nil_append]
+    by_cases c2 : h.streamID = 0
+    · by_cases c3 : p.length % 6 = 0
+      · cases hfind : (rfcSettings p).find? (fun s => s.1 == 4) with
+        | none => simp [c2, c3, Agrees, classOf]
+        | some s =>
+          by_cases c4 : s.2 > 2147483647
+          · have : s.2 > 2 ^ 31 - 1 := by omega
+            simp [c2, c3, c4, this, Agrees, classOf, pSettingsWinCode, FLOW_CONTROL_ERROR]
+          · have : ¬ s.2 > 2 ^ 31 - 1 := by omega
+            simp [c2, c3, c4, this, Agrees, classOf]
+      · simp [c2, c3, Agrees, classOf, pSettingsModCode, FRAME_SIZE_ERROR]
+    · simp [c2, Agrees, classOf, pSettingsSidCode, PROTOCOL_ERROR]
+
+theorem total_pushPromise (h : FrameHeader) (p : Bytes) (hf : h.flags < 256) :
+    Agrees (parsePushPromise h p) (rfcViolations 5 h.flags h.streamID p) := by
+  have hfs := (flagsHas_flagSet h.flags hf).2.1
+  unfold parsePushPromise rfcViolations pPushSid pPushPadded
+  rw [hfs]
+  by_cases c0 : h.streamID = 0
+  · simp [c0, Agrees, classOf, pPushSidCode, PROTOCOL_ERROR]
+  · simp only [c0, decide_false, Bool.false_eq_true, if_false, List.nil_append]
+    cases hp : flagSet h.flags 8
+    · -- not padded
+      simp only [Bool.false_eq_true, if_false]
+      by_cases c1 : p.length < 4
+      · simp [readUint32Short, c1, Agrees, classOf]
+      · simp [readUint32Short, c1, pPushPadBig, Agrees, classOf]
+    · simp only [if_true]
+      by_cases c1 : p.length = 0
+      · simp [readByteShort, c1, Agrees, classOf]
+      · have hb : readByteShort p = false := by simp [readByteShort, c1]
+        simp only [hb, Bool.false_eq_true, if_false]
+        by_cases c2 : p.length < 5
+        · have : readUint32Short (List.drop 1 p) = true := by
+            simp only [readUint32Short, List.length_drop, decide_eq_true_eq]; omega
+          have c2' : p.length < 1 + 4 := by omega
+          have this' : readUint32Short (List.tail p) = true := by rw [← List.drop_one]; exact this
+          simp [this', c2', Agrees, classOf]
+        · have h4 : readUint32Short (List.drop 1 p) = false := by
+            simp only [readUint32Short, List.length_drop, decide_eq_false_iff_not]; omega
+          have c2' : ¬ p.length < 1 + 4 := by omega
+          have hb0 : byteAt p 0 = (p.getD 0 0).toNat := rfl
+          have h4' : readUint32Short (List.tail p) = false := by rw [← List.drop_one]; exact h4
+          simp only [h4, Bool.false_eq_true, if_false, c2']
+          by_cases c3 : (p.getD 0 0).toNat > p.length - (1 + 4)
+          · have : pPushPadBig (byteAt p 0) (List.drop 4 (List.drop 1 p)) = true := by
+              simp only [pPushPadBig, List.length_drop, decide_eq_true_eq, hb0]; omega
+            have this' : pPushPadBig (byteAt p 0) (List.drop 5 p) = true := by simpa [List.drop_drop] using this
+            simp only [List.getD_eq_getElem?_getD] at c3
+            simp [this', h4', c3, Agrees, classOf, pPushPadBigCode, PROTOCOL_ERROR]
+          · have : pPushPadBig (byteAt p 0) (List.drop 4 (List.drop 1 p)) = false := by
+              simp only [pPushPadBig, List.length_drop, decide_eq_false_iff_not, hb0]; omega
+            have this' : pPushPadBig (byteAt p 0) (List.drop 5 p) = false := by simpa [List.drop_drop] using this
+            simp only [List.getD_eq_getElem?_getD] at c3
+            simp [this', h4', c3, Agrees, classOf]
+
+theorem total_unknown (h : FrameHeader) (p : Bytes) (ht : 10 ≤ h.type) : Agrees (parsePayload h p) (rfcViolations h.type h.flags h.streamID p) := by
+  rw [parsePayload_unknown h p ht]
+  have : ∀ k : Nat, k < 10 → ¬ h.type = k := fun k hk => by omega
+  simp [Agrees, rfcViolations, this]
+
+/-- every frame type but DATA / HEADERS (whose answers are `read_outcome_matches_reference`): the parser's answer agrees with
+the table of RFC 7540 §6 -/
+theorem parse_total (h : FrameHeader) (p : Bytes) (hl : h.length = p.length) (hf : h.flags < 256) (ht : 2 ≤ h.type) :
+    Agrees (parsePayload h p) (rfcViolations h.type h.flags h.streamID p) := by
+  by_cases h10 : 10 ≤ h.type
+  · exact total_unknown h p h10
+  · have : h.type = 2 ∨ h.type = 3 ∨ h.type = 4 ∨ h.type = 5 ∨ h.type = 6 ∨ h.type = 7 ∨ h.type = 8 ∨ h.type = 9 := by omega
+    rcases this with t | t | t | t | t | t | t | t
+    · rw [parsePayload_priority h p t, t]; exact total_priority h p
+    · rw [parsePayload_rst h p t, t]; exact total_rst h p
+    · rw [parsePayload_settings h p t, t]; exact total_settings h p hl hf
+    · rw [parsePayload_push h p t, t]; exact total_pushPromise h p hf
+    · rw [parsePayload_ping h p t, t]; exact total_ping h p
+    · rw [parsePayload_goAway h p t, t]; exact total_goAway h p
+    · rw [parsePayload_wu h p t, t]; exact total_windowUpdate h p
+    · rw [parsePayload_cont h p t, t]; exact total_continuation h p
+
 end MosnVerif.Lemmas.H2Payload
